@@ -345,7 +345,7 @@ Qed.
 (* pend is empty whenever the PubSubSync entry exists *)
 Lemma pend_none_entry : forall c s, SInv c s -> ps_entry s = true -> pend s = None.
 Proof.
-  intros c s I He. unfold pend. destruct (dl s) as [|p lag ph|] eqn:Ed; try reflexivity.
+  intros c s I He. unfold pend. destruct (dl s) as [|p lag ph| |] eqn:Ed; try reflexivity.
   destruct (i_entry_dl c s I He p lag ph Ed) as [->|[-> E0]]; [reflexivity|].
   rewrite E0. reflexivity.
 Qed.
